@@ -188,3 +188,52 @@ def _do_op(rec, msg, op, fields, labelmsm, name, value):
             raise
         _exc(rec, err)
     return rec
+
+
+_LIBNAMES = None
+
+
+def library_names():
+    """
+    Candidate attribute names taken from the library itself: every identifier-shaped name or string
+    constant that occurs in the code objects of the pyrtcm package, and every string in a module-level
+    tuple / list / set / frozenset / dict of the package.  An assignment guard with an exemption has to
+    name the exempted attribute somewhere in the code - this is where to look for it.
+    """
+    global _LIBNAMES
+    if _LIBNAMES is not None:
+        return _LIBNAMES
+    import re
+    import sys
+
+    from . import parallel_run
+
+    ident = re.compile(r"^[A-Za-z_][A-Za-z0-9_]{0,30}$")
+    names = set()
+
+    def strings(obj, depth=0):
+        if isinstance(obj, str):
+            if ident.match(obj):
+                names.add(obj)
+        elif isinstance(obj, (tuple, list, set, frozenset)) and depth < 3 and len(obj) <= 64:
+            for x in obj:
+                strings(x, depth + 1)
+
+    for code in parallel_run._pyrtcm_codes():     # pylint: disable=protected-access
+        names.update(n for n in code.co_names if ident.match(n))
+        names.update(n for n in code.co_varnames if ident.match(n))
+        for c in code.co_consts:
+            strings(c)
+    for mname, mod in list(sys.modules.items()):
+        if mod is None or not (mname == "pyrtcm" or mname.startswith("pyrtcm.")):
+            continue
+        for k, v in vars(mod).items():
+            if k.startswith("__"):
+                continue
+            if isinstance(v, dict) and len(v) <= 64:
+                strings(tuple(v.keys()))
+                strings(tuple(x for x in v.values() if isinstance(x, (str, tuple, list))))
+            else:
+                strings(v)
+    _LIBNAMES = sorted(names)
+    return _LIBNAMES
